@@ -55,7 +55,7 @@ def deep_or_wide(rng, g):
     return [a]
 
 
-def one_program(seed, i, tier, res, gfields=None):
+def one_program(seed, i, tier, res, gfields=None, extractors=None):
     rng = random.Random("%s:C01:%d" % (seed, i))
     big = rng.random() < (0.3 if tier == "thorough" else 0.1)
     g = gen.ProgGen(rng, max_depth=rng.choice([5, 6, 8]) if big else rng.choice([3, 4, 5]), max_nodes=150 if big else 40,
@@ -83,6 +83,9 @@ def one_program(seed, i, tier, res, gfields=None):
         it.allow_defer = True
         it.explicit_loggers = True
         it.stdlib_tb = True
+        if extractors is not None:
+            it.extractors = extractors
+            res["counters"]["programs_with_exception_extractors"] = res["counters"].get("programs_with_exception_extractors", 0) + 1
         # a second file destination joins in the middle of the program: it must receive exactly the rest
         import io
         late_file = io.BytesIO()
@@ -164,9 +167,39 @@ def run_case(spec):
         from eliot import add_global_fields
         gfields = {"g_host": "h\u00e9st", "g_pid": 4242, "g_tags": ["a", {"b": None}]}
         add_global_fields(**gfields)
+    extractors = None
+    if (spec["lo"] // BATCH) % 2 == 1:
+        # half of the processes register exception extractors (for Exception- and BaseException-derived classes alike): their
+        # fields are field values of the failed end / traceback message like any other
+        extractors = register_extractors(random.Random("%s:C01:ext:%d" % (spec["seed"], spec["lo"])))
     for i in range(spec["lo"], spec["hi"]):
-        one_program(spec["seed"], i, spec["tier"], res, gfields)
+        one_program(spec["seed"], i, spec["tier"], res, gfields, extractors)
     return res
+
+
+EXT_CLASSES = ["SystemExit", "KeyboardInterrupt", "CancelledError", "GeneratorExit", "UserBase", "ValueError", "UserError", "LookupError", "RuntimeError"]
+
+
+def register_extractors(rng):
+    from eliot import register_exception_extractor
+    from vf import excs
+    classmap = dict(excs.POOL, LookupError=LookupError)
+    registry = {}
+    for name in EXT_CLASSES:
+        if rng.random() < 0.6:
+            cls = classmap[name]
+            registry[cls] = name
+            register_exception_extractor(cls, (lambda e, name=name: {"ext_" + name: [name, str(getattr(e, "code", None))], "ext_by": name}))
+
+    def expect_fields(exc):
+        for klass in type(exc).__mro__:
+            if klass in registry:
+                name = registry[klass]
+                return {"ext_" + name: [name, str(getattr(exc, "code", None))], "ext_by": name}
+            if klass is OSError:
+                return {"errno": exc.errno}
+        return {}
+    return expect_fields
 
 
 def finalize(agg, tier):
